@@ -112,4 +112,112 @@ theorem prologue_spec (np : Bool) (g : V) (args : List V) :
     | (refine ⟨(hv.modify 0 _ (by exact frameOK_noHandlers rfl)).cur 0 h0, ?_⟩
        rw [get!_modify_self _ _ _ (by rw [hv.1]; exact h0)]; simp))
 
+/-! ### run semantics (plain statements about `(m.run.run s)`) -/
+
+theorem step_run (np : Bool) (F : FloatOps) (s : State) (h : StepPre np s) :
+    (∀ r s', (step F).run.run s = (.ok r, s') → StepOk np r s') ∧
+    (∀ e s', (step F).run.run s = (.error e, s') → StepExc np s') :=
+  run_of_triple (step_ok np F) s h
+
+theorem loop_run (np : Bool) (F : FloatOps) (fuel : Nat) (s : State) (h : StepPre np s) :
+    (∀ r s', (loopF F fuel).run.run s = (.ok r, s') → LoopOk np r s') ∧
+    (∀ e s', (loopF F fuel).run.run s = (.error e, s') → StepExc np s') :=
+  run_of_triple (loopF_spec np F fuel) s h
+
+theorem prologue_run (np : Bool) (g : V) (args : List V) (s : State) (hv : VInv s) (hwf : MainWF s) (hnp : s.noPanic = np) :
+    (∀ r s', (prologue g args).run.run s = (.ok r, s') → StepPre np s') ∧
+    (∀ e s', (prologue g args).run.run s = (.error e, s') → PrologueExc np e s') :=
+  run_of_triple (prologue_spec np g args) s ⟨hv, hwf, hnp⟩
+
+/-- `handlePanic` is total on `VInv` states -/
+theorem handlePanic_run (msg : String) (s : State) (hv : VInv s) :
+    ∃ s', (handlePanic msg).run.run s = (.ok (), s') ∧ VInv s' ∧ s'.noPanic = s.noPanic ∧
+      (s'.err = none → VInvB s' ∧ ∃ ra, Delivered ra s') := by
+  have := run_of_triple (handlePanic_spec msg (cp s)) s ⟨rfl, hv⟩
+  rcases hr : (handlePanic msg).run.run s with ⟨(e | a), s'⟩
+  · exact (this.2 e s' hr).elim
+  · have h := this.1 a s' hr
+    exact ⟨s', rfl, h.1, by simpa [cp] using h.2.1, h.2.2⟩
+
+def clearedF (f : Frame) : Frame := { f with free := none, fn := none, handlers := none }
+
+theorem clearCurrentFrame_run (s : State) (hv : VInv s) :
+    ∃ s', clearCurrentFrame.run.run s = (.ok (), s') ∧ VInv s' ∧ s'.noPanic = s.noPanic ∧ s'.err = s.err ∧ s'.sp = s.sp := by
+  refine ⟨{ s with frames := s.frames.modify s.curFrame clearedF }, rfl, ?_, rfl, rfl, rfl⟩
+  exact vinv_setCur hv clearedF rfl rfl rfl (frameOK_noHandlers rfl)
+
+/-- the epilogue reads `stack[sp-1]`: no panic when `1 ≤ sp < 2048` -/
+theorem resultValue_spec (c0 : CP) :
+    ⦃fun s => ⌜c0 = cp s ∧ 1 ≤ s.sp ∧ s.sp < 2048⌝⦄ resultValue
+    ⦃post⟨fun _ s => ⌜cp s = c0⌝, fun e s => ⌜cp s = c0 ∧ ∀ m, e ≠ .panic m⌝⟩⦄ := by
+  mvcgen [resultValue, getSp, getS, stackGet, heapGet, UgoVerif.VM.panic, unsupported]
+  all_goals simp_all +zetaDelta [cp, stackSize]
+  all_goals omega
+
+theorem finish_ok (s : State) (hv : VInv s) (h : s.err = none → 1 ≤ s.sp) :
+    VInv (runFrom.finish s).2 ∧ (runFrom.finish s).2.noPanic = s.noPanic ∧ ∀ m, (runFrom.finish s).1 ≠ .goPanic m := by
+  unfold runFrom.finish
+  split
+  · exact ⟨hv, rfl, fun m => by simp⟩
+  · rename_i he
+    split
+    · rename_i hsp
+      have := run_of_triple (resultValue_spec (cp s)) s ⟨rfl, h he, by simpa [stackSize] using hsp⟩
+      split <;> rename_i heq
+      · have hs := (same_iff _ _).mp (this.1 _ _ heq)
+        refine ⟨by simp only [VInv]; rw [hs.1, hs.2.2.1, hs.2.2.2.2.1]; exact hv, hs.2.2.2.2.2.2.1, fun m => by simp⟩
+      · exact absurd rfl ((this.2 _ _ heq).2 _)
+      · have hs := (same_iff _ _).mp (this.2 _ _ heq).1
+        refine ⟨by simp only [VInv]; rw [hs.1, hs.2.2.1, hs.2.2.2.2.1]; exact hv, hs.2.2.2.2.2.2.1, fun m => by simp⟩
+    · exact ⟨hv, rfl, fun m => by simp⟩
+
+/-- the `for run := true; run; { run = vm.run() }` loop of `Run` with the epilogue -/
+theorem go_ok (np : Bool) (F : FloatOps) : ∀ (reruns fuel : Nat) (s : State), StepPre np s →
+    VInv (runFrom.go F reruns fuel s).2 ∧ (runFrom.go F reruns fuel s).2.noPanic = np ∧
+      (np = true → ∀ m, (runFrom.go F reruns fuel s).1 ≠ .goPanic m) := by
+  intro reruns
+  induction reruns with
+  | zero =>
+    intro fuel s h
+    simp only [runFrom.go]
+    exact ⟨h.1.1, h.2.2, fun _ m => by simp⟩
+  | succ reruns ih =>
+    intro fuel s h
+    have hl := loop_run np F fuel s h
+    simp only [runFrom.go]
+    rcases hr : (loopF F fuel).run.run s with ⟨(e | r), s'⟩
+    · -- loop ended with an exception
+      have hx := hl.2 e s' hr
+      cases e with
+      | unsupported m => exact ⟨hx.1, hx.2, fun _ m' => by simp⟩
+      | panic m =>
+        simp only
+        by_cases hnp : s'.noPanic = true
+        · simp only [hnp, if_true]
+          obtain ⟨s'', hp, hv'', hnp'', hd⟩ := handlePanic_run m s' hx.1
+          rw [hp]
+          simp only
+          by_cases he : s''.err.isNone = true
+          · simp only [he, if_true]
+            have he' : s''.err = none := by simpa using he
+            exact ih _ s'' ⟨(hd he').1, he', by rw [hnp'', hx.2]⟩
+          · have he0 : s''.err.isNone = false := by cases hh : s''.err.isNone <;> simp_all
+            simp only [he0, Bool.false_eq_true, if_false]
+            have := finish_ok s'' hv'' (fun h0 => by simp [h0] at he)
+            exact ⟨this.1, by rw [this.2.1, hnp'', hx.2], fun _ => this.2.2⟩
+        · simp only [hnp]
+          refine ⟨hx.1, hx.2, fun hnpt => ?_⟩
+          rw [← hx.2] at hnpt; exact absurd hnpt hnp
+    · -- loop returned or the step budget ran out
+      have hx := hl.1 r s' hr
+      cases r with
+      | none => exact ⟨hx.1, hx.2.1, fun _ m => by simp⟩
+      | some u =>
+        simp only
+        obtain ⟨s'', hc, hv'', hnp'', he'', hsp''⟩ := clearCurrentFrame_run s' hx.1
+        rw [hc]
+        simp only
+        have := finish_ok s'' hv'' (fun h0 => by rw [hsp'']; exact hx.2.2 rfl (by rw [← he'']; exact h0))
+        exact ⟨this.1, by rw [this.2.1, hnp'', hx.2.1], fun _ => this.2.2⟩
+
 end UgoVerif.Proofs.VM
